@@ -256,7 +256,7 @@ var c12Templates = []sim.Template{
 var c12Profile = &sim.Profile{
 	W: map[string]int{
 		"login": 20, "otp_login": 20, "otp_add": 14, "otp_clear": 3, "totp_validate": 12, "sms_validate": 12, "regen": 2, "logout": 5,
-		"totp_remove": 2, "sms_remove": 2, "advance": 3, "dropsid": 2, "visit": 2, "admin_unlock": 2,
+		"totp_remove": 2, "sms_remove": 2, "advance": 3, "dropsid": 2, "visit": 2, "admin_unlock": 2, "faultnext": 3,
 	},
 	Cls: map[string]map[string]int{
 		"login":         {"ok": 90, "wrong": 10},
